@@ -44,7 +44,7 @@ PROP = 'C10'
 IMPORTS = ['Model.Prog', 'Spec.C10']
 PY = '/venv/bin/python'
 OUTS = ['', 'a\n', 'ab\nba\n', 'b a\nc', 'cab\n\nabc\n']
-FUEL = 24
+FUEL = 60
 FILES = {'data.txt': 'file data\nline b\n', 'data2.txt': 'abc'}
 
 PROBE = r'''import sys, os, json
@@ -87,6 +87,7 @@ ALPHA = 'abcxyzABC019 _-./:=,+%~^*?$&|<>;(){}[]!#\\@é'
 #   prog   ['cmd', driver, args, stdin, trs] | ['ref', name, args, stdin, trs]       stdin: [src]  trs: [tr]
 #   instr  ['def', name, value] | ['cd', canonical, option, suffix] | ['run', kind, ign, prog] | ['cap', k, src]
 #          | ['stdin', src] | ['exit-code', k] | ['stdout', text] | ['stderr', text]
+#          | ['exit-code-from', prog, k] | ['out-from', chan, prog, text]
 #   act    ['command', prog] | ['file', interp_driver, interp_args, fname, args] | ['source', interp_driver,
 #           interp_args, frags] | ['null']
 # ------------------------------------------------------------------------------------------------
@@ -212,7 +213,7 @@ class Gen:
 
     def stdin_text(self):
         r = self.rng
-        return r.choice(['', 'in\n', 'x', 'l1\nl2\n', ' sp ace\n', 'a\nb', 'é\n', 'abc abc\n', '\n', '-x\n', "q'q\n"])
+        return r.choice(['', 'in\n', 'x', 'l1\nl2\n', ' sp ace\n', 'a\nb', 'é\n', 'abc abc\n', '-x\n', "q'q\n"])
 
     # ---- sources
     def leaf_src(self, data_syms):
@@ -245,9 +246,9 @@ class Gen:
     def src(self, env, depth):
         r = self.rng
         if depth > 0 and r.chance(0.35):
-            p = self.use_site(env, depth - 1, code=0 if r.chance(0.85) else r.randint(1, 255))
+            p = self.use_site(env, depth - 1, code=0 if r.chance(0.8) else r.randint(1, 255))
             code = self.code_of(p)
-            ign = r.chance(0.9) if code != 0 else r.chance(0.2)
+            ign = r.chance(0.65) if code != 0 else r.chance(0.2)
             return ['prog', r.choice(['out', 'err']), ign, p]
         return self.leaf_src(env['data'])
 
@@ -284,9 +285,8 @@ class Gen:
                 words.append('"' + r.choice(['a  b', "it's", 'x;y', '#c']) + '"')
             elif k < 6:
                 words.append(r.choice(['a\\ b', '$NOPE', '"$HOME"', '~nobody', 'x\\;y']))
-            elif k < 7 and env['data']:
-                return_sym = r.choice(env['data'])
-                words.append(['s', return_sym])
+            elif k < 7 and 'SAFE' in env['data']:
+                words.append(['s', 'SAFE'])   # a string symbol whose value the shell leaves alone
             else:
                 words.append(r.choice(['  ', '   ']).join(['u', 'v']))
         fr = [['c', PY + ' {HOME}/probe.py']]
@@ -393,6 +393,8 @@ class Gen:
                 defs.append(['def', 'PA%d' % i, ['path', base + '/' + suffix, opt, suffix]])
         if r.chance(0.3):
             defs.append(['def', 'PYS', ['string', PY, 'bare']])
+        if r.chance(0.3):
+            defs.append(['def', 'SAFE', ['string', r.choice(['sv', 'a b', '-s', 'x=1']), 'soft']])
         if r.chance(0.3):
             defs.append(['def', 'HSCRIPT', ['path', '{HOME}/probe.py', '-rel-home', 'probe.py']])
         return defs
@@ -524,6 +526,24 @@ class Gen:
                 if not r.chance(0.7):
                     t = r.choice(OUTS + [t + 'x', t.upper(), t[1:]])
                 asserts.append([kind, t])
+        # assertions on a program of their own (-from PROGRAM)
+        defs = all_defs(case)
+        for _ in range(r.weighted([(0, 6), (1, 3), (2, 1)])):
+            code = 0 if r.chance(0.5) else r.randint(0, 255)
+            p = self.use_site(env, 1, code)
+            m = re.search(r'--x=(\d+),(\d+),(\d+)', ' '.join(
+                [frags_inner(p[1][1])] if p[0] == 'cmd' and p[1][0] == 'shell'
+                else [frags_inner(a[1]) for a in p[2] if a[0] == 'str']))
+            c, o, e = [int(x) for x in m.groups()]
+            if r.chance(0.4):
+                k = c if r.chance(0.7) else r.choice([0, 1, (c + 1) % 256, r.below(256)])
+                asserts.append(['exit-code-from', p, k])
+            else:
+                ch = r.choice(['out', 'err'])
+                t = py_apply(py_trs(p, defs), OUTS[o if ch == 'out' else e])
+                if not r.chance(0.7):
+                    t = r.choice(OUTS + [t + 'x', t[1:]])
+                asserts.append(['out-from', ch, p, t])
         for a in asserts:
             case['assert'].insert(r.randint(0, len(case['assert'])), a)
         return case
@@ -576,8 +596,8 @@ def py_is_direct(s, defs):
     return s[0] == 'prog' and (s[1] == 'out' or s[2]) and not py_trs(s[3], defs)
 
 
-def kf1_predicate(case):
-    """KF-C10-1: some program of the case has a stdin sequence (accumulated parts, plus the [setup] stdin for the
+def mixed_stdin_sequence(case):
+    """the class of the repaired defect FIX-C10-1: some program of the case has a stdin sequence (accumulated parts, plus the [setup] stdin for the
     action to check) of >= 2 parts in which a part written through the Python file object precedes a part written
     through the file descriptor"""
     defs = all_defs(case)
@@ -750,6 +770,15 @@ class Render:
             fn = 'expected%d.txt' % len(self.expect_files)
             self.expect_files[fn] = i[1]
             return ['%s equals -contents-of -rel-home %s' % (k, fn)]
+        if k == 'exit-code-from':
+            pl = self.prog(i[1])
+            return ['exit-code -from ' + pl[0]] + pl[1:] + ['    == %d' % i[2]]
+        if k == 'out-from':
+            pl = self.prog(i[2])
+            fn = 'expected%d.txt' % len(self.expect_files)
+            self.expect_files[fn] = i[3]
+            return [('stdout' if i[1] == 'out' else 'stderr') + ' -from ' + pl[0]] + pl[1:] + \
+                   ['    equals -contents-of -rel-home %s' % fn]
         raise ValueError(i)
 
     def case(self, case, rec):
@@ -897,11 +926,6 @@ class Runner:
         for k, ent in enumerate(self.log):
             ch = children.get(str(k), [])
             cmd = ent['cmd']
-            if not ent['shell'] and cmd and re.search(r'/internal/\S*/act\.src$', cmd[-1]):
-                try:
-                    source = self.canon(open(cmd[-1], encoding='utf-8').read(), sds)
-                except OSError:
-                    source = '<unreadable>'
             procs.append({
                 'shell': ent['shell'],
                 'cmd': self.canon(cmd, sds) if ent['shell'] else [self.canon(a, sds) for a in cmd],
@@ -914,6 +938,10 @@ class Runner:
         result = None
         caps = []
         if sds:
+            # the file the source interpreter actor writes the source code to (written in act/prepare)
+            for d, _, fns in os.walk(os.path.join(sds, 'internal')):
+                if 'act.src' in fns:
+                    source = self.canon(open(os.path.join(d, 'act.src'), encoding='utf-8').read(), sds)
             try:
                 result = [open(os.path.join(sds, 'result', n), encoding='utf-8', errors='surrogateescape').read()
                           for n in ('exit-code', 'stdout', 'stderr')]
@@ -1049,6 +1077,10 @@ class Terms:
             return '(IStdout %s)' % ctext(i[1])
         if k == 'stderr':
             return '(IStderr %s)' % ctext(i[1])
+        if k == 'exit-code-from':
+            return '(IExitCodeFrom %s %s)' % (self.prog(i[1], files), cN(i[2]))
+        if k == 'out-from':
+            return '(IOutFrom %s %s %s)' % ('COut' if i[1] == 'out' else 'CErr', self.prog(i[2], files), ctext(i[3]))
         raise ValueError(i)
 
     def instrs(self, l, files):
@@ -1166,6 +1198,10 @@ def programs_of(case, with_defs=False):
         for i in case[ph]:
             if i[0] == 'run':
                 from_prog(i[3])
+            elif i[0] == 'exit-code-from':
+                from_prog(i[1])
+            elif i[0] == 'out-from':
+                from_prog(i[2])
             elif i[0] == 'cap':
                 from_src(i[2])
             elif i[0] == 'stdin':
@@ -1190,12 +1226,39 @@ def features(case, obs):
         f.add('shell')
     if any(p['stdin'] is not None for p in obs['procs']):
         f.add('stdin')
+    if mixed_stdin_sequence(case):
+        f.add('stdin: buffered part before descriptor-written part (class of FIX-C10-1)')
     return f
 
 
 def is_nontrivial(case, obs):
     f = features(case, obs)
-    return 'chain>=2' in f or 'nonzero-exit' in f or case['act'][0] != 'command'
+    return ('chain>=2' in f or 'nonzero-exit' in f or case['act'][0] != 'command'
+            or any(x.startswith('stdin: buffered') for x in f))
+
+
+def sweep_cases(codes, rng):
+    """two small cases per exit code: (i) the action to check returns it, `exit-code == code` must see it, and a
+    `run` in [assert] returning it is a FAIL (unless 0); (ii) a `$` in [setup] returning it is a HARD_ERROR and
+    [cleanup] still runs a program with -ignore-exit-code returning it"""
+    out = []
+    script = ['str', [['c', '{HOME}/probe.py']], 'bare']
+
+    def probe(ctl):
+        return ['cmd', ['sys', [['c', PY]], 'bare'], [script, ['str', [['c', '--x=' + ctl]], 'bare']], [], []]
+
+    for k in codes:
+        o, e = rng.below(len(OUTS)), rng.below(len(OUTS))
+        out.append({'setup': [], 'act': ['command', probe('%d,%d,%d' % (k, o, e))], 'before': [],
+                    'assert': [['exit-code', k], ['stdout', OUTS[o]], ['stderr', OUTS[e]],
+                               ['run', 'run', False, probe('%d,0,%d' % (k, rng.below(len(OUTS))))]],
+                    'cleanup': []})
+        out.append({'setup': [['run', '$', False,
+                               ['cmd', ['shell', [['c', '%s {HOME}/probe.py --x=%d,0,%d' % (PY, k, rng.below(2))]]],
+                                [], [], []]]],
+                    'act': ['null'], 'before': [], 'assert': [['exit-code', 0]],
+                    'cleanup': [['run', 'run', True, probe('%d,1,1' % k)]]})
+    return out
 
 
 def generate(ctx, n):
@@ -1206,7 +1269,7 @@ def generate(ctx, n):
 def evaluate(ctx, res, cases, tag='cases'):
     observed = run_cases(ctx, cases)
     terms = [c_case(c, o, FILES) for c, o in zip(cases, observed)]
-    cb, pb, errs = common.run_shards(PROP, IMPORTS, 'check_case', terms, shard_size=150, tag=tag)
+    cb, pb, errs = common.run_shards(PROP, IMPORTS, 'check_case', terms, shard_size=50, tag=tag)
     res.errors += errs
     return observed, cb, pb
 
@@ -1218,11 +1281,14 @@ def describe(case, obs):
 
 def run(ctx, res):
     n = 900 if ctx.quick else 12000
-    cases = load_corpus() + generate(ctx, n)
+    codes = sorted({0, 1, 2, 126, 127, 128, 129, 254, 255} | {ctx.rng.below(256) for _ in range(24)}) if ctx.quick \
+        else list(range(256))
+    cases = load_corpus() + sweep_cases(codes, ctx.rng) + generate(ctx, n)
     res.rule = ('generated test cases: 0-4 data symbols (strings, lists, paths; weird texts: empty, spaces, quotes, '
                 'option-like and reserved words), 0-2 chains of 1-4 program definitions each adding arguments / -stdin / '
                 '-transformed-by, run / $ / % / file..=-stdout-from.. / cd in every phase, stdin = SRC, the four actors, '
-                'exit codes 0..255, assertions on exit-code / stdout / stderr.  non-trivial := a started program goes '
+                'exit codes 0..255 (plus a sweep: two fixed small cases per exit code - all 256 in the thorough tier), '
+                'assertions on exit-code / stdout / stderr of the action to check and -from PROGRAM.  non-trivial := a started program goes '
                 'through >= 2 contributing definitions, or some process exits non-zero, or the actor is not the '
                 'command line actor; distinct := distinct case text')
     observed, cb, pb = evaluate(ctx, res, cases)
@@ -1234,24 +1300,15 @@ def run(ctx, res):
         res.count('verdict exit code %s' % o['exit'])
         if is_nontrivial(c, o):
             res.nontrivial.add(o['case_text'])
+    res.extra['exit_codes_returned_by_started_processes'] = len({p['rc'] for o in observed for p in o['procs']})
+    res.extra['processes_started'] = sum(len(o['procs']) for o in observed)
     res.samples = [{'case_file': observed[i]['case_text'], 'processes': observed[i]['procs'][:3],
                     'exit': observed[i]['exit']} for i in range(min(2, len(cases)))]
-    # known finding KF-C10-1: the input has a stdin sequence with a buffered part before a descriptor-written part
-    # AND the observation satisfies the statement once only that order is taken as the code produces it
-    cand = [i for i in pb if kf1_predicate(cases[i])]
-    explained = set()
-    if cand:
-        files = FILES
-        terms = [c_case(cases[i], observed[i], files) for i in cand]
-        _, pb2, errs = common.run_shards(PROP, IMPORTS, 'check_case_kf1', terms, shard_size=150, tag='kf1')
-        res.errors += errs
-        explained = {cand[j] for j in range(len(cand))} - {cand[j] for j in pb2}
     for i in pb:
         res.prop_failures.append(Failure('property', describe(cases[i], observed[i]),
                                          'what the real program handed to the process executor / what the started '
                                          'process received / the captured outcome / the verdict differs from the '
-                                         'denotation of Spec/C10.v (P_C10 false)',
-                                         finding='KF-C10-1' if i in explained else None))
+                                         'denotation of Spec/C10.v (P_C10 false)'))
     for i in cb:
         res.disagreements.append(Failure('correspondence', describe(cases[i], observed[i]),
                                          'Model/Prog.v run_case differs from the observed behaviour'))
